@@ -21,6 +21,7 @@ fn keys() -> Vec<Key> {
         Key::from_parts("ab", vec![Label::new("k", "v"), Label::new("e", "")]),
         Key::from_name(""),
         Key::from_parts("abcd", Vec::<Label>::new()),
+        Key::from_parts("bt", vec![Label::new("e", ""), Label::new("f", ""), Label::new("k", "v")]),
     ]
 }
 
@@ -39,6 +40,8 @@ fn alphabet() -> Vec<Op> {
         Op::Hist(2, vec![1.0, 2.5, 3.0], Some(0.5), true),
         Op::Hist(0, (0..40).map(|i| i as f64).collect(), None, true),
         Op::Hist(3, vec![1.0, 1e300], None, false),
+        Op::Counter(5, 1, None),
+        Op::Hist(5, vec![2.0, 4.0], None, true),
         Op::Drain,
     ]
 }
@@ -232,7 +235,8 @@ fn e3(ctx: &Ctx, res: &mut PartResult, length_prefix: bool, prefix: Option<&'sta
     let alpha = alphabet();
     let ks = keys();
     let mut states = vseq::States::new();
-    let gl = if global { vec![Label::new("g", "1")] } else { vec![] };
+    // "global" = a bare (empty-valued) global label followed by a valued one
+    let gl = if global { vec![Label::new("bare", ""), Label::new("g", "1")] } else { vec![] };
     if let Some(rp) = &ctx.replay {
         let cfg = Config { max_len: rp["max_len"].as_u64().unwrap() as usize, length_prefix, prefix, global: gl };
         let seq: Vec<usize> = rp["seq"].as_array().unwrap().iter().map(|x| x.as_u64().unwrap() as usize).collect();
@@ -251,7 +255,7 @@ fn e3(ctx: &Ctx, res: &mut PartResult, length_prefix: bool, prefix: Option<&'sta
     res.states = states.len();
     res.distinct_outcomes = states.len();
     res.bound = json!({"depth": depth, "alphabet": alpha.len(), "max_payload_lens": lens(!ctx.quick()).len(), "length_prefix": length_prefix, "prefix": prefix, "global_labels": global});
-    res.sample(json!({"config": {"max_len": 24, "length_prefix": length_prefix, "prefix": prefix}, "ops": format!("{:?}", [&alpha[0], &alpha[10], &alpha[13], &alpha[3]])}));
+    res.sample(json!({"config": {"max_len": 24, "length_prefix": length_prefix, "prefix": prefix}, "ops": format!("{:?}", [&alpha[0], &alpha[10], &alpha[15], &alpha[13]])}));
 }
 
 fn parts(ctx: &Ctx) -> Vec<PartSpec> {
@@ -281,7 +285,7 @@ fn main() {
     driver::main(CheckDef {
         prop: "C09",
         level: "model_checking",
-        rule: "for every max_payload_len in {0..72 (thorough 0..260), boundary values around the longest payload, 8192} x length prefix {off,on} x prefix {None,p,pre} x global labels {[],[g:1]}: every sequence of the stated depth over 14 operations (counter/gauge with extreme values and optional timestamp, histogram/distribution with 0,1,2,3,40 values and optional sample rate, names of length 0..12, labels with empty value, drain) on one real PayloadWriter, plus a final drain; every drained payload is parsed by an independent DogStatsD parser and matched against the writes since the previous drain (name, type, tags, values in order at round-trip precision, length prefix, size limit, written/dropped accounting); distinct = distinct (config class, drain shape) states",
+        rule: "for every max_payload_len in {0..72 (thorough 0..260), boundary values around the longest payload, 8192} x length prefix {off,on} x prefix {None,p,pre} x global labels {[],[g:1]}: every sequence of the stated depth over 16 operations (counter/gauge with extreme values and optional timestamp, histogram/distribution with 0,1,2,3,40 values and optional sample rate, names of length 0..12, labels with empty value, drain) on one real PayloadWriter, plus a final drain; every drained payload is parsed by an independent DogStatsD parser and matched against the writes since the previous drain (name, type, tags, values in order at round-trip precision, length prefix, size limit, written/dropped accounting); distinct = distinct (config class, drain shape) states",
         assumptions: &["strings in names/tags are benign (no ':' '|' ',' or newline): the DogStatsD protocol has no escaping and the property does not ask for any"],
         parts,
         run,
